@@ -134,6 +134,7 @@ type c06Run struct {
 	env        *mon.Env
 	r          *mux.Router[*mon.Hnd]
 	h          http.Handler // what readers serve through: the router itself or a Group it was added to
+	domain     string       // what URL() results start with (WithURLDomain on a third of the histories)
 	clock      atomic.Int64
 	mu         sync.Mutex
 	events     []cEvent
@@ -505,6 +506,14 @@ func runC06(c *Ctx) {
 		c06opts = append(c06opts, mux.WithTrace(env.NewHnd(mon.KTrace, "")))
 		c.Class("history_on_trace_router")
 	}
+	c06Domain := ""
+	if r.Chance(1, 3) {
+		// a URL domain the option trims one slash off: URL() results carry the rest, whoever asks first and however many ask at once
+		c06opts = append(c06opts, mux.WithURLDomain("https://u.example///"))
+		c06Domain = "https://u.example//"
+		c.Class("history_on_router_with_url_domain")
+	}
+	x.domain = c06Domain
 	x.r = env.NewRouter("r", c06opts...)
 	x.h = x.r
 	if r.Chance(1, 3) {
@@ -724,7 +733,7 @@ func runC06(c *Ctx) {
 				case k == 18:
 					// strict URL of an untouched route: must always succeed with its own text, also while its node is being split
 					u := ref.Pick(lr, c06Untouched)
-					want := u.witness("7")
+					want := x.domain + u.witness("7")
 					got, err := func() (s string, err error) {
 						defer func() {
 							if p := recover(); p != nil {
@@ -746,7 +755,7 @@ func runC06(c *Ctx) {
 							_, err := x.r.URL(true, t.pat, params)
 							return cOutput{OK: err == nil}
 						})
-					} else if u, err := x.r.URL(false, t.pat, params); err != nil || u != t.witness("7") {
+					} else if u, err := x.r.URL(false, t.pat, params); err != nil || u != x.domain+t.witness("7") {
 						x.violate(fmt.Sprintf("non-strict URL(%q)=%q,%v", t.pat, u, err))
 					}
 				}
